@@ -239,3 +239,88 @@ def realclock_sample(ctx, d, pid, cases, mode="handle", gomaxprocs=None, tag="rc
                    note="memx %s on the real clock (harness built without faketime); --replay runs the case through the "
                         "virtual-clock harness in the check's own mode" % mode)
     return failing, cov
+
+
+# ----------------------------------------------------------------------------- cluster configuration path
+
+def clustercfg_text(items):
+    return "".join("CFG %s %s\n%s\nEND\n" % (name, text.encode().hex(), "\n".join(lines)) for name, text, lines in items)
+
+
+def clustercfg_run(d, items, tag="ccfg", timeout=300):
+    prog, out, ver = d / (tag + ".prog"), d / (tag + ".trace"), d / (tag + ".verdict")
+    prog.write_text(clustercfg_text(items))
+    for f in (out, ver):
+        if f.exists():
+            f.unlink()
+    rc, log = lib.sh("%s clustercfg %s %s %s" % (lib.BUILD / "harness", prog, out, d), cwd=d, timeout=timeout)
+    if rc != 0 or not out.exists():
+        return None, None, "clustercfg rc=%s %s" % (rc, log[-1500:])
+    trace = out.read_text()
+    parsed = {}
+    for l in trace.splitlines():
+        if l.startswith("P "):
+            fs = l.split()
+            parsed[fs[1]] = (fs[2], int(fs[3]))
+    rc, log = lib.sh("%s mem %s %s" % (lib.BUILD / "modelrun", out, ver), cwd=d, timeout=timeout)
+    if rc != 0 or not ver.exists():
+        return parsed, None, "modelrun rc=%s %s" % (rc, log[-1500:])
+    return parsed, (memlib.mismatching(ver.read_text().splitlines()), trace), None
+
+
+def clustercfg_sample(ctx, d, pid, items):
+    """(a) obligation: config.ParseConfigJson on each generated cluster JSON yields Databases == 1 whenever
+    it accepts the file; (b) the node built from the parsed Config, driven through HandleCluster /
+    handleClusterCommits, behaves as the one-database server of the model.  Returns (failing, cov)."""
+    ok, log = lib.ensure_harness("harness")
+    if not ok:
+        return dict(kind="tie-broken", what="harness build failed: " + log[-2000:]), {}
+    parsed, res, err = clustercfg_run(d, items)
+    if err:
+        return dict(kind="clustercfg-harness-died", detail=err), {}
+    mm, trace = res
+    by = {n: (t, l) for n, t, l in items}
+    accepted = [n for n, (st, _) in parsed.items() if st == "ok"]
+    bad = sorted(n for n in accepted if parsed[n][1] != 1)
+    cov = dict(clustercfg_files=len(items), clustercfg_accepted=len(accepted),
+               clustercfg_rejected=sum(1 for st, _ in parsed.values() if st == "error"),
+               clustercfg_panicked=sum(1 for st, _ in parsed.values() if st == "panic"),
+               clustercfg_with_databases_key=sum(1 for _, t, _ in items if "atabases" in t.lower().replace("databases", "atabases")),
+               clustercfg_steps=sum(1 for l in trace.splitlines() if l.startswith("S ")),
+               clustercfg_obligation="ParseConfigJson accepted the file => cfg.Databases == 1")
+    name = bad[0] if bad else (sorted(mm)[0] if mm else None)
+    if not name:
+        return None, cov
+    text, lines = by[name]
+    tl = trace.splitlines()
+    start = [i for i, l in enumerate(tl) if l.startswith("CASE %s " % name)][0]
+    seg = []
+    for l in tl[start:]:
+        seg.append(l)
+        if l.startswith("END"):
+            break
+    failing = dict(kind="cluster-config-databases" if bad else "cluster-node-vs-one-database-model",
+                   cluster_json=text, parse_status=parsed[name][0], databases_after_parse=parsed[name][1],
+                   expected="config.ParseConfigJson leaves cfg.Databases == 1 for every cluster JSON it accepts; the node then "
+                            "rejects SELECT i for i != 0, so no connection can move another (premise of C20_cluster_single_database)",
+                   cfg_case=[name, text, lines], readable=memlib.decode_case(lines), trace=seg[:40],
+                   verdict=mm.get(name, "(replies agree with the one-database model)"),
+                   n_files_with_wrong_databases=len(bad), n_mismatching_nodes=len(mm))
+    return failing, cov
+
+
+def clustercfg_replay(ctx, d, replay):
+    lib.ensure_harness("harness")
+    lib.ensure_modelrun()
+    name, text, lines = replay["cfg_case"]
+    parsed, res, err = clustercfg_run(d, [(name, text, lines)], tag="ccfgreplay")
+    if err:
+        print(err)
+        return 1
+    mm, trace = res
+    print(trace)
+    st, dbs = parsed[name]
+    badcfg = st == "ok" and dbs != 1
+    print("ParseConfigJson: %s, Databases = %d%s; replies %s" % (st, dbs, "  (OBLIGATION VIOLATED: must be 1)" if badcfg else "",
+                                                           "DISAGREE with the one-database model: " + str(mm[name]) if mm else "agree with the model"))
+    return 1 if (badcfg or mm) else 0
